@@ -128,7 +128,11 @@ class GenericScheduler(OpSource):
         if forced:
             ctx.stats.probe("no_legal_action_mid")
             fault = "FORCED_ILLEGAL"
-        if plan.illegal_rate > 0 and hi is not None and rng.random() < plan.illegal_rate:
+        # faults are biased to land in the endgame: when (almost) no legal move is left - the last cell, the last
+        # city, the last item - an illegal action is injected far more often than the base rate
+        endgame = hi is not None and lo is not None and ad.mask_mode != "per_agent" and 0 < int(np.asarray(lo).sum()) <= 2
+        rate = max(plan.illegal_rate, 0.35) if (endgame and plan.illegal_rate > 0) else plan.illegal_rate
+        if rate > 0 and hi is not None and rng.random() < rate:
             a2 = self._inject_illegal(action, hi)
             if a2 is not None:
                 action, fault = a2, "ILLEGAL"
